@@ -46,6 +46,17 @@ pub const Z: [u8; 7] = [0; 7];
 pub const F: [u8; 7] = [1, 2, 3, 4, 5, 6, 7];
 /// the repository suite's own word, a second W_30 (roll + 1 = 3 * 2^30)
 pub const W30B: [u8; 7] = *b"`]]]_CT";
+/// Words at the corners of the trigger arithmetic (found by search; validated at start-up):
+/// (name, word, roll value).  roll+1 = 0xFFFFFFFF = 3*0x55555555 is the LARGEST multiple of 3 (quotient odd:
+/// level 0 only); roll+1 = 0xFFFFFFFC = 3*0x55555554 (levels 0..=2); roll+1 = 3 and 6 are the smallest ones;
+/// roll+1 = 0xBFFFFFFF is just below 3*2^30 and must not trigger.
+pub const CORNER_WORDS: [(&str, [u8; 7], u32); 5] = [
+    ("Xfe", [96, 126, 63, 27, 152, 112, 217], 0xFFFF_FFFE),
+    ("Xfb", [96, 126, 63, 27, 152, 115, 225], 0xFFFF_FFFB),
+    ("X2", [96, 126, 63, 27, 152, 114, 223], 2),
+    ("X5", [96, 126, 63, 27, 152, 115, 219], 5),
+    ("Xbf", [110, 158, 61, 95, 24, 120, 217], 0xBFFF_FFFE),
+];
 
 /// Validate the table against the reference rolling hash.  A failure is a
 /// machinery error, not a verdict.
@@ -71,6 +82,11 @@ pub fn validate_words() -> Result<(), String> {
     if vf % 3 == 0 {
         return Err("F triggers".into());
     }
+    for (name, w, r) in CORNER_WORDS.iter() {
+        if roll(w) != *r {
+            return Err(format!("corner word {}", name));
+        }
+    }
     let vb = roll(&W30B).wrapping_add(1) as u64;
     if vb != 3u64 << 30 {
         return Err("W30B".into());
@@ -87,6 +103,9 @@ pub fn gen_alphabet() -> Vec<(String, Vec<u8>)> {
     a.push(("F".into(), F.to_vec()));
     a.push(("00".into(), vec![0]));
     a.push(("01".into(), vec![1]));
+    for (name, w, _) in CORNER_WORDS.iter() {
+        a.push((name.to_string(), w.to_vec()));
+    }
     a
 }
 
